@@ -27,6 +27,8 @@ type Generator func(rng *rand.Rand, n int, thorough bool, emit func(string))
 var (
 	runners    = map[string]Runner{}
 	generators = map[string]Generator{}
+	// ops that start goroutines in the real code: a panic there cannot be recovered by runCase
+	crashy = map[string]bool{}
 )
 
 func runCase(line string) (out string) {
@@ -75,6 +77,10 @@ func main() {
 			if strings.TrimSpace(line) == "" || strings.HasPrefix(line, "#") {
 				continue
 			}
+			if crashy[strings.Fields(line)[0]] {
+				fmt.Fprintf(w, "#RUN %s\n", line)
+				w.Flush()
+			}
 			fmt.Fprintf(w, "%s\t%s\n", line, runCase(line))
 			w.Flush()
 		}
@@ -95,6 +101,11 @@ func main() {
 		}
 		rng := rand.New(rand.NewSource(*seed))
 		g(rng, *n, *tier == "thorough", func(line string) {
+			if crashy[strings.Fields(line)[0]] {
+				// the real code may take the process down: say which case is running
+				fmt.Fprintf(w, "#RUN %s\n", line)
+				w.Flush()
+			}
 			fmt.Fprintf(w, "%s\t%s\n", line, runCase(line))
 		})
 	default:
